@@ -19,6 +19,8 @@ Level: translation_validation (exactness proved per produced CFG, programs sampl
 import hashlib
 import json
 import os
+import signal
+import subprocess
 from concurrent.futures import ThreadPoolExecutor
 
 import vlib
@@ -387,6 +389,20 @@ def bucket(n):
 
 
 # ----------------------------------------------------------------------- the run
+DOM_FRAMES = ("ir.buildDomTree", "ir.numberDomTree", "ir.(*ltState)", "ir.(*BasicBlock).Dominates",
+              "ir.(*Function).DomPreorder", "ir.(*Function).DomPostorder", "ir.sanityCheckDomTree")
+
+
+def in_dom_code(stack):
+    return any(f in stack for f in DOM_FRAMES)
+
+
+class DumpHang(Exception):
+    def __init__(self, args, timeout, stacks):
+        Exception.__init__(self, "c14dump %s did not finish within %ds" % (args[:3], timeout))
+        self.args_, self.timeout, self.stacks = args, timeout, stacks
+
+
 class Runner:
     def __init__(self, ctx, tool, full):
         self.ctx, self.tool, self.full = ctx, tool, full
@@ -396,22 +412,65 @@ class Runner:
         self.samples = []
         self.failures = []      # oracle failures (dicts)
         self.corr = []          # correspondence differences (dicts)
+        self.crashes = []       # panics / hangs inside the dominance code (dicts)
+        self.panics_elsewhere = []
 
-    def dump(self, args, cwd=None):
-        rc, so, se = vlib.run([self.tool, "-full", str(self.full), "-seed", str(self.ctx.seed)] + args,
-                              cwd=cwd, env=vlib.go_env(), timeout=1500)
-        if rc != 0:
-            raise vlib.HarnessError("c14dump %s failed (%d): %s" % (args[:4], rc, se[-2000:]))
+    def dump(self, args, cwd=None, timeout=300):
+        """run c14dump; a run that does not finish is asked for its goroutine stacks (SIGQUIT)
+        and reported as DumpHang, so that a non-terminating dominator construction is a
+        finding with a replay and not a machinery error."""
+        cmd = [self.tool, "-full", str(self.full), "-seed", str(self.ctx.seed)] + args
+        p = subprocess.Popen(cmd, cwd=cwd, env=vlib.go_env(), stdout=subprocess.PIPE, stderr=subprocess.PIPE, text=True)
+        try:
+            so, se = p.communicate(timeout=timeout)
+        except subprocess.TimeoutExpired:
+            p.send_signal(signal.SIGQUIT)
+            try:
+                so, se = p.communicate(timeout=60)
+            except subprocess.TimeoutExpired:
+                p.kill()
+                so, se = p.communicate()
+            raise DumpHang(args, timeout, se[-20000:])
+        if p.returncode != 0:
+            raise vlib.HarnessError("c14dump %s failed (%d): %s" % (args[:4], p.returncode, se[-2000:]))
         return so
+
+    hung = False
+
+    def hang(self, h, origin, sources):
+        """a dump that did not finish: a finding if the stacks are inside the dominance code."""
+        if not in_dom_code(h.stacks):
+            raise vlib.HarnessError("%s (%s); goroutine stacks do not mention the dominance code:\n%s" % (h, origin, h.stacks[-3000:]))
+        self.hung = True
+        self.crashes.append({"origin": origin, "kind": "hang", "args": h.args_, "timeout_s": h.timeout,
+                             "error": h.stacks[:8000], "sources": sources})
+
+    def dump_src(self, files, origin, sources):
+        try:
+            return self.dump(["-src"] + list(files))
+        except DumpHang as h:
+            self.hang(h, origin, sources)
+            return ""
 
     def process(self, dump_text, origin, sources=None, strict=False):
         """validate every function of a dump; sources: file -> text (for replays)."""
         pkgs, funcs = parse_dump(dump_text)
         for pid, p in pkgs.items():
             if p["error"] is not None:
-                if strict:
-                    raise vlib.HarnessError("generated/corpus program rejected (%s): %s" % (p["file"] or p["path"], p["error"]))
-                self.stats["skipped_packages"].append("%s: %s" % (p["path"], p["error"][:120]))
+                err = p["error"]
+                if err.startswith("builder panic"):
+                    rec = {"origin": origin, "package": p["path"], "file": p["file"], "kind": "panic",
+                           "error": err[:6000], "source": (sources or {}).get(p["file"])}
+                    if in_dom_code(err):
+                        self.crashes.append(rec)
+                    else:
+                        # not C14's subject (C03: totality); the NaiveForm retry of the same file is
+                        # validated normally, so wrong dominance behind the panic is still seen
+                        self.panics_elsewhere.append("%s: %s" % (p["file"] or p["path"], err.splitlines()[0][:200]))
+                elif strict:
+                    raise vlib.HarnessError("generated/corpus program rejected (%s): %s" % (p["file"] or p["path"], err))
+                else:
+                    self.stats["skipped_packages"].append("%s: %s" % (p["path"], err[:120]))
         self.stats["packages"] += len(pkgs)
         if not funcs:
             return
@@ -487,26 +546,31 @@ def chunks(xs, k):
 def replay(ctx, R):
     """re-run the function(s) of a replay file against the current tree."""
     rp = json.load(open(ctx.replay))
-    cases = rp.get("cases") or [rp.get("first")]
+    cases = [c for c in ([rp.get("first")] + (rp.get("cases") or [])) if c]
     for i, c in enumerate(cases):
-        if not c:
-            continue
+        srcs = {}
         if c.get("source"):
-            p = ctx.path("replay", "r%d.go" % i)
-            open(p, "w").write(c["source"])
-            so = R.dump(["-src", p])
-            pkgs, funcs = parse_dump(so)
-            keep = [f for f in funcs if f["name"] == c["function"]]
-            sub = "\n".join(l for l in so.splitlines())
-            # validate all functions of the file; report only the named one
-            R.process(sub, "replay", sources={p: c["source"]}, strict=True)
-            R.failures = [x for x in R.failures if x["function"] == c["function"]]
-            if not keep:
-                raise vlib.HarnessError("replay: function %s not found" % c["function"])
+            srcs["r%d.go" % i] = c["source"]
+        for k, (name, text) in enumerate(sorted((c.get("sources") or {}).items())):
+            srcs["r%d_%d.go" % (i, k)] = text
+        if srcs:
+            paths = {}
+            for name, text in srcs.items():
+                p = ctx.path("replay", name)
+                open(p, "w").write(text)
+                paths[p] = text
+            R.process(R.dump_src(sorted(paths), "replay", paths), "replay", sources=paths, strict=True)
         elif c.get("package"):
-            so = R.dump(["-dir", vlib.REPO, "-pkgs", c["package"]])
-            R.process(so, "replay")
-            R.failures = [x for x in R.failures if x["function"] == c["function"]]
+            R.process(R.dump(["-dir", vlib.REPO, "-pkgs", c["package"]], timeout=1500), "replay")
+        else:
+            continue
+        if c.get("function"):
+            # everything in the file is validated again; only the named function is reported
+            R.failures = [x for x in R.failures if x["function"] == c["function"] or x.get("_kept")]
+            for x in R.failures:
+                x["_kept"] = True
+    for x in R.failures:
+        x.pop("_kept", None)
 
 
 def run(ctx):
@@ -534,14 +598,13 @@ def run(ctx):
             "lean": lean_broke, "theorems": THEOREMS}, nofail=True)
         return vlib.finish(ctx, "translation_validation")
 
-    if ctx.replay:
-        replay(ctx, R)
-    else:
+    def explore():
+        nonlocal hist
         # 1. corpus: fixed regression programs (always first)
         corpus = sorted(os.path.join(CORPUS, f) for f in os.listdir(CORPUS) if f.endswith(".go")) if os.path.isdir(CORPUS) else []
         if corpus:
             texts = {p: open(p).read() for p in corpus}
-            R.process(R.dump(["-src"] + corpus), "corpus", sources=texts, strict=True)
+            R.process(R.dump_src(corpus, "corpus", texts), "corpus", sources=texts, strict=True)
         # 2. go/ir's own test inputs (single files without local imports)
         td = os.path.join(vlib.REPO, "go", "ir", "testdata")
         tfiles = []
@@ -550,43 +613,47 @@ def run(ctx):
                 continue
             tfiles += [os.path.join(root, f) for f in sorted(fs) if f.endswith(".go")]
         tfiles.sort()
-        if tfiles:
-            R.process(R.dump(["-src"] + tfiles), "go/ir/testdata", sources={p: open(p).read() for p in tfiles})
+        if tfiles and not R.hung:
+            texts = {p: open(p).read() for p in tfiles}
+            R.process(R.dump_src(tfiles, "go/ir/testdata", texts), "go/ir/testdata", sources=texts)
         lap("corpus_testdata")
+        if R.hung:
+            return
         # 3. generated programs
         nfiles, per = (64, 50) if quick else (640, 80)
         files, texts, hist = gen_sources(ctx, nfiles, per, "main")
         groups = chunks(files, 6 if quick else 10)
 
         def one(group):
-            return group, R.dump(["-src"] + group)
-
-        with ThreadPoolExecutor(max_workers=min(vlib.NCPU, 12)) as ex:
-            dumps = list(ex.map(one, groups))
-        # validation in parallel as well (the driver is a separate process per group)
-        subs = []
-        for group, so in dumps:
             r2 = Runner(ctx, tool, R.full)
-            subs.append((r2, so, {p: texts[p] for p in group}))
-
-        def val(x):
-            r2, so, tx = x
-            r2.process(so, "generated", sources=tx, strict=True)
+            tx = {p: texts[p] for p in group}
+            r2.process(r2.dump_src(group, "generated", tx), "generated", sources=tx, strict=True)
             return r2
 
         with ThreadPoolExecutor(max_workers=min(vlib.NCPU, 12)) as ex:
-            done = list(ex.map(val, subs))
+            done = list(ex.map(one, groups))
         for r2 in done:
             merge(R, r2)
         lap("generated")
+        if R.hung:
+            return
         # 4. real packages: the repository under test and the standard library
         if quick:
             pats = [["./go/ir", "./pattern", "./unused", "go/types", "regexp/syntax", "encoding/json", "fmt"]]
         else:
             pats = [["./..."], ["std"]]
         for pat in pats:
-            so = R.dump(["-dir", vlib.REPO, "-pkgs"] + pat)
+            try:
+                so = R.dump(["-dir", vlib.REPO, "-pkgs"] + pat, timeout=1500)
+            except DumpHang as h:
+                R.hang(h, "packages " + " ".join(pat), None)
+                return
             R.process(so, "packages " + " ".join(pat))
+
+    if ctx.replay:
+        replay(ctx, R)
+    else:
+        explore()
 
     lap("packages")
     st = R.stats
@@ -619,6 +686,20 @@ def run(ctx):
         "no theorem about LT itself is claimed",
     ]
 
+    ctx.coverage["builder_panics_outside_dominance_code"] = R.panics_elsewhere[:10]
+    if R.crashes:
+        R.crashes.sort(key=lambda c: len(c.get("source") or "") or 10**9)
+        first = R.crashes[0]
+        ctx.violation("dom_crash.json", {
+            "what": "the dominance code of go/ir (buildDomTree / numberDomTree / Dominates / DomPreorder) panics or does "
+                    "not terminate on a valid program, so its queries cannot be exact",
+            "how_to_replay": "write `source` (or `sources`) to files and run harness/cmd/c14dump -src <files>; "
+                             "`error` holds the panic value and stack / the goroutine stacks of the hung process",
+            "first": first, "count": len(R.crashes),
+            "cases": [dict(c, source=None, sources=None) for c in R.crashes[1:10]],
+        }, text="C14: dominance code %s on %s: %s" % (
+            "hangs" if first["kind"] == "hang" else "panics", first.get("file") or first.get("args"),
+            first["error"].splitlines()[0][:200] if first["error"] else ""))
     if R.failures:
         by = {}
         for x in R.failures:
@@ -636,7 +717,7 @@ def run(ctx):
                 "cases": [dict(x, source=None) for x in xs[1:20]],
             }, text="C14: %d function(s) fail clause %s, smallest: %s in %s (%d blocks): %s" % (
                 len(xs), clause, first["function"], first.get("file") or first.get("package"), first["blocks"], first["details"]))
-    elif R.corr or not lean_ok:
+    elif (R.corr or not lean_ok) and not R.crashes:
         first = sorted(R.corr, key=lambda x: x["blocks"])[:5]
         ctx.violation("correspondence.json", {
             "what": "the Lean transliteration of buildDomTree/numberDomTree no longer reproduces the reported "
@@ -662,6 +743,9 @@ def merge(R, r2):
             R.samples.append(s)
     R.failures += r2.failures
     R.corr += r2.corr
+    R.crashes += r2.crashes
+    R.panics_elsewhere += r2.panics_elsewhere
+    R.hung = R.hung or r2.hung
 
 
 META = {
